@@ -75,6 +75,8 @@ def main():
     chk.stubs += ["tokenize._compile -> symbolic regex matcher"]
     collect_functions(chk, lambda: oracles.run_tokens(repo().real, "if a:\n  x = 0x1F + '''c\nd''' # c\n"))
     regex_lemmas(chk)
+    from symx import oracles2
+    harness.oracles.ORACLES.update({"c09": oracles2.c09})     # same verdicts, plus the f-string features the known findings are keyed by
     o = ("c09",)
     for l in range(1, L + 1):
         for nl in (False, True):
